@@ -15,7 +15,24 @@ pub(crate) fn find_tld_or_enum_value_by_name(
     tlds: &BTreeMap<String, ToplevelDefinition>,
 ) -> Option<ASN1Value> {
     if let Some(ToplevelDefinition::Value(v)) = tlds.get(name) {
-        return Some(v.value.clone());
+        // follow chains of value references: `a INTEGER ::= b`, `b INTEGER ::= 7`
+        let mut value = &v.value;
+        let mut seen = vec![name];
+        while let ASN1Value::ElsewhereDeclaredValue {
+            parent: None,
+            identifier,
+            ..
+        } = value
+        {
+            match tlds.get(identifier) {
+                Some(ToplevelDefinition::Value(next)) if !seen.contains(&identifier) => {
+                    seen.push(identifier);
+                    value = &next.value;
+                }
+                _ => break,
+            }
+        }
+        return Some(value.clone());
     } else {
         for (_, tld) in tlds.iter() {
             if let Some(value) = tld.get_distinguished_or_enum_value(Some(type_name), name) {
